@@ -312,6 +312,8 @@ func compareFrame(got http2.Frame, want Frame) string {
 			off += 5
 		} else if f.HasPriority() {
 			return "HEADERS reports a priority that was not sent"
+		} else if f.Priority != (http2.PriorityParam{}) {
+			return fmt.Sprintf("HEADERS without the PRIORITY flag carries priority fields %+v", f.Priority)
 		}
 		frag = p[off : len(p)-padl]
 		if !bytes.Equal(f.HeaderBlockFragment(), frag) {
@@ -339,6 +341,7 @@ type c19Case struct {
 	Cuts   []int
 	FailAt int
 	Meta   bool // read with ReadMetaHeaders
+	Reuse  bool // the reading Framer recycles frame objects (SetReuseFrames): each frame is compared before the next read
 	Limit  uint32
 }
 
@@ -385,6 +388,9 @@ func runC19RoundTrip(cs *c19Case) (vs []Violation, stats map[string]int) {
 	rd := &faultyReader{data: wire.Bytes(), cuts: cs.Cuts, failAt: fail}
 	rfr := http2.NewFramer(io.Discard, rd)
 	rfr.SetMaxReadFrameSize(cs.Limit)
+	if cs.Reuse {
+		rfr.SetReuseFrames()
+	}
 	if cs.Meta {
 		rfr.ReadMetaHeaders = hpack.NewDecoder(4096, nil)
 		rfr.MaxHeaderListSize = 1 << 20
@@ -651,7 +657,14 @@ func runC19Arbitrary(frames []Frame, raw []byte, limit uint32, cuts []int) (vs [
 			return
 		}
 		stats["malformed_rejected_with_rfc_code"]++
-		return // a framing error ends the connection
+		var se http2.StreamError
+		if errors.As(err, &se) {
+			// a stream error does not end the connection: the frames that follow are read and
+			// judged too (an open header block stays open)
+			stats["read_on_after_stream_error"]++
+			continue
+		}
+		return // a connection error ends the connection
 	}
 	return
 }
@@ -952,6 +965,7 @@ func drawC19(t *rapid.T) *Case {
 		descs = append(descs, f.Desc)
 	}
 	cs.Meta = drawBool(t, "meta", 50)
+	cs.Reuse = drawBool(t, "reuse", 30)
 	if drawBool(t, "fail", 40) {
 		cs.FailAt = rapid.IntRange(0, 4000).Draw(t, "failat")
 	}
@@ -959,7 +973,7 @@ func drawC19(t *rapid.T) *Case {
 		cs.Limit = 16384
 	}
 	c := &Case{}
-	c.Summary = fmt.Sprintf("write %v; read with cuts %v failAt=%d meta=%v limit=%d", descs, head(cuts, 6), cs.FailAt, cs.Meta, cs.Limit)
+	c.Summary = fmt.Sprintf("write %v; read with cuts %v failAt=%d meta=%v reuse=%v limit=%d", descs, head(cuts, 6), cs.FailAt, cs.Meta, cs.Reuse, cs.Limit)
 	c.DirectKey = c.Summary
 	c.Direct = func(c *Case) []Violation {
 		vs, st := runC19RoundTrip(cs)
